@@ -140,7 +140,7 @@ class ExactAlgorithmCplex(ExactAlgorithmBase, PairwiseBasedAlgorithm):
                         {id_elements[id_elem] for id_elem in scc_i_set})
                     rankings: List[Ranking] = self._compute_consensus_rankings_with_optim(new_dataset, scoring_scheme,
                                                                                           False, True)
-                    for bucket in rankings[0]:
+                    for bucket in dataset._buckets_with_own_elements(rankings[0]):
                         ranking.append(bucket)
             return [Ranking(ranking)]
 
